@@ -36,6 +36,9 @@ def run(ctx, rep):
     NR.int_ctor(rep, lib)
     NR.float_window(rep, lib)
     NR.finite(rep, ctx)
+    # the fixpoint half: jawk reads its own output back - every digit of a printed number (a small double is written
+    # positionally, with hundreds of digits) is kept by the reader (shared with C01; seed C02-r10-1)
+    P.digits(rep, lib)
     PR.json_structure(rep, lib)
     PR.json_row(rep, lib)
     # the printer's options and the value being printed are copies (Clone) of what was configured / parsed
